@@ -921,7 +921,7 @@ fn run(w: &mut Worker) {
     let pats = all_strings(PSYM, maxp);
     w.exhaustive("pairs-small", &format!("every pattern of <= {maxp} symbols over {{a b * ? [ ] ! - \\ . /}} x every subject of <= 4 symbols over {{a b . / - ] NL}} (+14 extra), both case modes"), pats.into_iter().map(|pattern| PatCase { pattern, subjects: vec![] }), check_pat);
     w.random("pairs", w.tier.pick(60_000, 1_000_000), (40, 160), 800, gen_random, check_pat);
-    w.random("pairs-many-stars", w.tier.pick(12_000, 200_000), (40, 160), 400, gen_many_stars, check_pat);
+    w.random("pairs-many-stars", w.tier.pick(12_000, 200_000), (40, 160), 60, gen_many_stars, check_pat);
     w.random("e2e", w.tier.pick(6_000, 80_000), (40, 160), 400, gen_e2e, check_e2e);
     w.regress::<SubjCase>("subject", check_subj);
     let mut roots: Vec<SubjCase> = vec![];
